@@ -11,13 +11,21 @@ EXTENDS IEEE, BvLane
 
 FloatOpsC02 == {"add", "sub", "mul", "div", "sqrt", "neg", "abs", "copysign", "and", "or", "xor", "not", "andnot", "bitofsign",
                 "fma", "fms", "fnma", "fnms", "min", "max", "fmin", "fmax", "sign", "signnz", "nextafter",
-                "op+", "op-", "op*", "op/", "op-u", "op&", "op|", "op^", "op~"}
+                "op+", "op-", "op*", "op/", "op-u", "op&", "op|", "op^", "op~",
+                "op+=", "op-=", "op*=", "op/=", "op&=", "op|=", "op^=", "op++", "op--", "op++post", "op--post", "op++old", "op--old", "op+u"}
 FloatOpsC08 == {"ceil", "floor", "trunc", "round", "nearbyint", "rint"}
 FloatPreds == {"isnan", "isinf", "isfinite", "is_flint", "is_even", "is_odd"}
 
 One_(f) == Enc(f, 0, Bias(f), <<>>)             \* 1.0
-FloatRel(op, f, x, y, z, r) ==
+\* member operators denote the named operation (x op= y leaves and returns x op y; ++x / x++ leave x + 1; x++ returns the old x; +x is x)
+FCanon(op) ==
+  CASE op = "op+=" -> "add" [] op = "op-=" -> "sub" [] op = "op*=" -> "mul" [] op = "op/=" -> "div" [] op = "op&=" -> "and" [] op = "op|=" -> "or"
+    [] op = "op^=" -> "xor" [] op \in {"op++old", "op--old", "op+u"} -> "id" [] OTHER -> op
+FloatRel0(op, f, x, y, z, r) ==
   CASE op \in {"add", "op+"} -> ResOK(f, FAdd(f, x, y), r)
+    [] op = "id"       -> r = x
+    [] op \in {"op++", "op++post"} -> ResOK(f, FAdd(f, x, One_(f)), r)
+    [] op \in {"op--", "op--post"} -> ResOK(f, FSub(f, x, One_(f)), r)
     [] op \in {"sub", "op-"} -> ResOK(f, FSub(f, x, y), r)
     [] op \in {"mul", "op*"} -> ResOK(f, FMul(f, x, y), r)
     [] op \in {"div", "op/"} -> FDivOK(f, x, y, r)
@@ -48,6 +56,7 @@ FloatRel(op, f, x, y, z, r) ==
     [] op = "round"    -> SameNumber(f, RoundInt(f, x, "away"), r)
     [] op \in {"nearbyint", "rint"} -> SameNumber(f, RoundInt(f, x, "even"), r)
     [] OTHER -> FALSE
+FloatRel(op, f, x, y, z, r) == FloatRel0(FCanon(op), f, x, y, z, r)
 FloatPred(op, f, x) ==
   CASE op = "isnan" -> IsNaN(f, x) [] op = "isinf" -> IsInf(f, x) [] op = "isfinite" -> IsFinite(f, x)
     [] op = "is_flint" -> IsFlint(f, x) [] op = "is_even" -> IsEven(f, x) [] op = "is_odd" -> IsOdd(f, x)
